@@ -645,4 +645,26 @@ theorem generateCalls_own {δ : Type} (descs : List δ) : ∀ (n : Nat) (st : Li
     · rw [h]; exact pluginLoop_own descs []
     · exact ih _ call h
 
+theorem paramsSeen_foldl (descs : List (List Opt)) : ∀ (acc : List (List Bytes)) (cur : List Bytes),
+    (descs.foldl (fun (a : List (List Bytes) × List Bytes) opts => (a.1 ++ [pack opts], pack opts)) (acc, cur)).1 =
+      acc ++ descs.map pack := by
+  induction descs with
+  | nil => intro acc cur; simp
+  | cons d r ih => intro acc cur; simp [List.foldl_cons, ih]
+
+theorem paramsSeen_own (descs : List (List Opt)) (cur : List Bytes) : (paramsSeen descs cur).1 = descs.map pack := by
+  simpa [paramsSeen] using paramsSeen_foldl descs [] cur
+
+theorem paramsSeenCalls_own (descs : List (List Opt)) : ∀ (n : Nat) (cur : List Bytes) (call : List (List Bytes)),
+    call ∈ paramsSeenCalls descs n cur → call = descs.map pack := by
+  intro n
+  induction n with
+  | zero => intro cur call h; simp [paramsSeenCalls] at h
+  | succ n ih =>
+    intro cur call h
+    simp only [paramsSeenCalls, List.mem_cons] at h
+    rcases h with h | h
+    · rw [h]; exact paramsSeen_own descs cur
+    · exact ih _ call h
+
 end Plugin
